@@ -1158,6 +1158,53 @@ def phase_align(rec):
     rec.count('phase.D.done')
 
 
+ALIGN_CORRUPT_OPS = [('read_all',), ('data',), ('read', 100000), ('pipe',), ('skip',), ('read', 2), ('read_rest', 1), ('loop', 50)]
+
+
+def phase_align_corrupt(rec):
+    """F: single-edit corruptions x every buffer alignment (phase E runs each edit at one alignment only).
+
+    The edits are taken at the structural joints of the form: first byte of every content (the base contents are
+    'x--' boundary ..., so deleting the 'x' leaves a content line that BEGINS with the dash-boundary / the close
+    delimiter - a body no RFC 2046 encoder may write), last header byte, every byte of the blank line, first and last
+    byte of every delimiter line.  Weak oracle + WSGI/ASGI agreement, at every preamble pad 0..buffer size.
+    """
+    idx = 0
+    for ics in (96,) if rec.tier == 'quick' else (96, 80):
+        for b in (b'B', B70) if rec.tier == 'quick' else (b'B', b'ab', B70, b'-'):
+            parts = [Part('a', b'x--' + b + b'\r\nX-Fake: 1\r\n\r\nboo'), Part('b', b'y--' + b + b'--\r\n', filename='f'),
+                     Part('c', filler(2 * ics + 7, b))]
+            if not all(M.content_legal(p.content, b) for p in parts):
+                continue
+            _body, lay = M.encode_form(parts, b)
+            joints = []
+            for kind, i, s0, e0 in lay.spans:
+                if kind == 'content' and i < 2:
+                    joints += [('del', s0), ('sub', s0, 0x2d)]
+                elif kind == 'headers' and i < 2:
+                    joints += [('del', e0 - 1)]
+                elif kind == 'blank' and i < 2:
+                    joints += [('del', s0), ('sub', s0 + 1, 0x41), ('del', s0 + 3)]
+                elif kind == 'delimiter' and i in (1, 2):
+                    joints += [('del', s0), ('sub', e0 - 1, 0x0d)]
+            if rec.tier == 'quick':
+                joints = [j for j in joints if j[0] == 'del']
+            for pad in range(0, ics + 1):
+                pre = b'' if pad < 2 else b'p' * (pad - 2) + b'\r\n'
+                for e in joints:
+                    idx += 1
+                    if idx % rec.nshards != rec.shard:
+                        continue
+                    k = idx // rec.nshards
+                    ops = ALIGN_CORRUPT_OPS if rec.tier == 'thorough' else [ALIGN_CORRUPT_OPS[k % 4]]
+                    for j, op in enumerate(ops):
+                        e2 = (e[0], e[1] + len(pre)) + tuple(e[2:])
+                        do_case(rec, make_case(b, parts, [op] * 3, preamble=pre, edit=e2, ics=ics,
+                                               transport=(None, 1, ics, 7)[(k + j) % 4], tag='F'))
+                        rec.count('align.corrupt')
+    rec.count('phase.F.done')
+
+
 EDIT_BYTES = [0x0d, 0x0a, 0x2d, 0x22, 0xff, 0x41, 0x3b, 0x20, 0x00, 0x3a]
 
 
@@ -1403,7 +1450,7 @@ def run(rec):
     counter = [0]
     times = []
     for name, fn in (('P', phase_boundary_param), ('M', phase_meta), ('B', phase_consumption), ('L', phase_limits),
-                     ('D', phase_align), ('E', phase_corrupt), ('A', lambda r: phase_forms(r, counter))):
+                     ('D', phase_align), ('F', phase_align_corrupt), ('E', phase_corrupt), ('A', lambda r: phase_forms(r, counter))):
         t0, e0 = rec.elapsed(), rec.evaluations
         fn(rec)
         times.append('%s %.1fs/%d' % (name, rec.elapsed() - t0, rec.evaluations - e0))
@@ -1455,7 +1502,7 @@ def floors(rec):
         ('mon.op.skip', 200), ('mon.op.data_catch', 20), ('mon.op.pipe', 10),
         ('random.valid', 40 if q else 400), ('random.corrupt', 40 if q else 400), ('mon.boundary_param', 6),
         ('phase.A.done', rec.nshards), ('phase.B.done', rec.nshards), ('phase.M.done', rec.nshards),
-        ('phase.L.done', rec.nshards), ('phase.D.done', rec.nshards), ('phase.E.done', rec.nshards),
+        ('phase.L.done', rec.nshards), ('phase.D.done', rec.nshards), ('phase.F.done', rec.nshards), ('align.corrupt', 300), ('phase.E.done', rec.nshards),
     ]:
         rec.floor(name, n)
 
